@@ -204,3 +204,91 @@ theorem hs_quiet (c : HS.St) (hI : HS.Inv c) (op : HS.Op) (h : (HS.step c op).no
         split <;> simp_all
 
 end Wz.C16L
+
+/-! ### what `on_update` leaves in the header list -/
+namespace Wz.C16L
+open Wz Hdr Views Wz.C08L
+
+theorem keyEq_congr {k k' : Str} (h : lower k = lower k') : keyEq k = keyEq k' := by
+  funext p; simp [keyEq, h]
+
+theorem getlist_congr (l : HList) {k k' : Str} (h : lower k = lower k') : getlist l k = getlist l k' := by
+  simp [getlist, keyEq_congr h]
+
+theorem set_getlist (l : HList) (k v : Str) (hv : hasNL v = false) : getlist (Hdr.set l k v).1 k = [v] := by
+  rcases set_cases l k v hv with ⟨r, hs, he⟩ | ⟨hnone, he⟩
+  · rw [he]; simp [getlist, setLoop_filter_self k v l r hs]
+  · rw [he]
+    simp [getlist, List.filter_append, filter_keyEq_none k l hnone, keyEq_self]
+
+theorem set_getlist' (l : HList) (k k' v : Str) (hk : lower k = lower k') (hv : hasNL v = false) :
+    getlist (Hdr.set l k' v).1 k = [v] := by
+  rw [getlist_congr _ hk]; exact set_getlist l k' v hv
+
+theorem delKey_getlist (l : HList) (k : Str) : getlist (delKey l k) k = [] := by
+  simp only [getlist, delKey, List.filter_filter]
+  have : (l.filter fun a => keyEq k a && !keyEq k a) = [] := by
+    rw [List.filter_eq_nil_iff]; intro a _; cases keyEq k a <;> simp
+  simp [this]
+
+theorem not_contains_getlist (l : HList) (k : Str) (h : Hdr.contains l k = false) : getlist l k = [] := by
+  unfold Hdr.contains at h
+  have hf : l.find? (keyEq k) = none := by
+    cases hh : l.find? (keyEq k) with
+    | none => rfl
+    | some p => simp [hh] at h
+  rw [List.find?_eq_none] at hf
+  simp only [getlist]
+  have : l.filter (keyEq k) = [] := by
+    rw [List.filter_eq_nil_iff]; intro a ha; exact hf a ha
+  simp [this]
+
+theorem absent_pattern (l : HList) (k : Str) :
+    getlist (if Hdr.contains l k then delKey l k else l) k = [] := by
+  cases hc : Hdr.contains l k with
+  | true => simp only [if_true]; exact delKey_getlist l k
+  | false => simp only [Bool.false_eq_true, if_false]; exact not_contains_getlist l k hc
+
+/-! ### decimal text round trip -/
+
+theorem digitsVal_natText (n : Nat) : CC.digitsVal (CC.natText n) = some n := by
+  unfold CC.digitsVal CC.natText
+  have h1 : (Nat.toDigits 10 n).isEmpty = false := by
+    cases h : Nat.toDigits 10 n with
+    | nil => exact absurd h Nat.toDigits_ne_nil
+    | cons _ _ => rfl
+  have h2 : (Nat.toDigits 10 n).all Char.isDigit = true := by
+    rw [List.all_eq_true]
+    intro c hc
+    exact Nat.isDigit_of_mem_toDigits (by decide) (by decide) hc
+  simp [h1, h2, Nat.ofDigitChars_ten_toDigits]
+
+theorem natText_head_digit (n : Nat) : ∃ c t, CC.natText n = c :: t ∧ c.isDigit = true := by
+  unfold CC.natText
+  cases h : Nat.toDigits 10 n with
+  | nil => exact absurd h Nat.toDigits_ne_nil
+  | cons c t =>
+    refine ⟨c, t, rfl, ?_⟩
+    exact Nat.isDigit_of_mem_toDigits (b := 10) (n := n) (by decide) (by decide) (by rw [h]; exact List.mem_cons_self)
+
+theorem pyInt_natText (n : Nat) : CC.pyInt (CC.natText n) = some (n : Int) := by
+  obtain ⟨c, t, he, hd⟩ := natText_head_digit n
+  have hv := digitsVal_natText n
+  rw [he] at hv
+  have h1 : c ≠ '-' := by intro e; subst e; simp [Char.isDigit] at hd
+  have h2 : c ≠ '+' := by intro e; subst e; simp [Char.isDigit] at hd
+  rw [he]
+  unfold CC.pyInt
+  split
+  · rename_i d heq; cases heq; exact absurd rfl h1
+  · rename_i d heq; cases heq; exact absurd rfl h2
+  · simp [hv]
+
+theorem pyInt_intText (i : Int) : CC.pyInt (CC.intText i) = some i := by
+  cases i with
+  | ofNat n => exact pyInt_natText n
+  | negSucc n =>
+    simp only [CC.intText, CC.pyInt, digitsVal_natText, Option.map_some]
+    rfl
+
+end Wz.C16L
